@@ -79,6 +79,12 @@ class Ctx:
         sumf = os.path.join(src, "go.sum")
         if which == "harness":
             shutil.copyfile(os.path.join(REPO, "go.sum"), sumf)
+            lib = os.path.join(src, "libgen.go")
+            gen = os.path.join(VERIF, "gen", "genlib.py")
+            if not os.path.exists(lib) or os.path.getmtime(lib) < os.path.getmtime(gen):
+                g = subprocess.run([sys.executable, gen, lib], capture_output=True, text=True)
+                if g.returncode != 0:
+                    raise Inconclusive("constructor library generation failed: " + g.stderr)
         outp = os.path.join(self.scratch, "bin-%s-%s%s" % (which, tags.replace(",", "_"), "-race" if race else ""))
         cmd = ["go", "build", "-tags", tags, "-o", outp]
         if race:
